@@ -91,6 +91,27 @@ def main():
         print(f"HARNESS-ERROR property={pid}", file=sys.stderr)
         return 2
 
+    # seconds-long regression tier: saved minimal inputs of earlier findings (pinned-tree defects, seeded changes) are
+    # replayed through the same predicate on every run, bypassing generators and Hypothesis
+    regress_dir = os.path.join(HERE, "regress", pid)
+    n_regress = 0
+    if os.path.isdir(regress_dir):
+        for fn in sorted(os.listdir(regress_dir)):
+            if not fn.endswith(".json"):
+                continue
+            try:
+                with open(os.path.join(regress_dir, fn)) as f:
+                    body = json.load(f)
+                fails = mod.replay(body["case"])
+            except Exception:
+                traceback.print_exc()
+                print(f"HARNESS-ERROR property={pid} (regression replay {fn})", file=sys.stderr)
+                return 2
+            n_regress += 1
+            for fl in fails[:1]:
+                report.fail(fl.get("key", f"regress:{fn}"), body["case"], f"[regression input regress/{pid}/{fn}] {fl.get('msg')}")
+    report.extra["regression_inputs_replayed"] = n_regress
+
     known = fw.load_known(pid)
     known_hit = {}
     buckets = {}
